@@ -149,6 +149,14 @@ func vfStrs(ss []string) (l vfList) {
 	return l
 }
 
+func vfFirst(l []string) string {
+	if len(l) == 0 {
+		return ""
+	}
+
+	return l[0]
+}
+
 func vfHours(days int) string { return fmt.Sprintf("%dh", days*24) }
 
 func vfMerge(dst, extra vfMap) vfMap {
@@ -215,12 +223,12 @@ func vfRenderClient(c *vfClient, v int) (m vfMap) {
 func (s *vfSettings) renderDNS(v int) (d vfMap) {
 	d = vfMap{"port": s.DNSPort, "ratelimit": s.Ratelimit, "cache_size": s.CacheSize}
 	if v < 3 {
-		d["bootstrap_dns"] = s.Bootstrap[0]
+		d["bootstrap_dns"] = vfFirst(s.Bootstrap)
 	} else {
 		d["bootstrap_dns"] = vfStrs(s.Bootstrap)
 	}
 	if v < 8 {
-		d["bind_host"] = s.DNSBindHosts[0]
+		d["bind_host"] = vfFirst(s.DNSBindHosts)
 	} else {
 		d["bind_hosts"] = vfStrs(s.DNSBindHosts)
 	}
